@@ -1,6 +1,9 @@
 """C31 No fetches to dubious hosts unless allowed (K1 gates, K3 fetch primitives, K4 classifier)."""
+import re
 from lib.facts import (norm, path_matches, origin_is_call, guard_edges, Site, callee_matches)
-from lib.rules import arg_path, edges_from_call, fmt_path, who_calls, strip_origin
+from lib.rules import arg_path, arg_desc, edges_from_call, fmt_path, who_calls, strip_origin
+
+from lib.tables import enumerate_paths  # noqa: E402
 
 META = dict(
     level='other',
@@ -161,67 +164,93 @@ def const_args(body, call_origin):
     return vals
 
 
+def _test_kind(v):
+    if 'localhost' in v:
+        return 'localhost'
+    if re.search(r"const\(':'\)|const\(\":\"\)", v):
+        return 'colon'
+    if re.search(r'Ip(v4|v6)?Addr', v):
+        return 'ip'
+    return None
+
+
 def rule_classifier(ctx):
+    """has_dubious_authority as a truth table over its three tests: any positive test => true; false only when all three
+    are negative. Shape-independent (early returns, one `a || b || c` expression, temporaries)."""
     b = ctx.body('utils::uri::UriExt::has_dubious_authority')
-    true_sites = []
-    false_sites = []
-    for site, s in b.stmts():
-        if s['s'] == 'assign' and s['lhs'] == [0] and s['rv']['r'] == 'use' and 'k' in s['rv']['o']:
-            (true_sites if s['rv']['o']['k'].get('int') == 1 else false_sites).append(site)
-    ctx.floor('K4', 'return-true sites', len(true_sites), 1)
-    ctx.floor('K4', 'return-false sites', len(false_sites), 1)
-    tests = {'localhost': [], 'colon': [], 'ip': []}
-    for sbb in b.switches():
-        o, edges = b.switch_edges(sbb)
-        calls = o.calls()
-        kind = None
-        posl = {'true', 'Some', 'Ok'}
-        for c in calls:
-            cv = const_args(b, c)
-            if any('localhost' in v for v in cv):
-                kind = 'localhost'
-                tests[kind].append((sbb, edges, c))
-                break
-            if any(v in ("':'", '":"', ':') or v.strip('\'"') == ':' for v in cv):
-                kind = 'colon'
-                tests[kind].append((sbb, edges, c))
-                break
-            if 'IpAddr' in c.callee or 'Ipv4Addr' in c.callee or 'Ipv6Addr' in c.callee or \
-                    ('parse' in c.callee and any('IpAddr' in t for t in (c.term['fn'].get('targs') or []))):
-                kind = 'ip'
-                tests[kind].append((sbb, edges, c))
-                break
-    for kind, lst in tests.items():
-        ctx.floor('K4', 'recognised %s test in has_dubious_authority' % kind, len(lst), 1)
-        for sbb, edges, c in lst:
-            pos = [(sbb, tb) for tb, labs in edges.items() if labs & {'true', 'Some', 'Ok'} and not labs & {'false', 'None', 'Err'}]
-            neg = [(sbb, tb) for tb, labs in edges.items() if labs & {'false', 'None', 'Err'}]
-            # A: positive edge reaches only return-true
-            for (_s, tb) in pos:
-                r = b.reachable(tb)
-                leak = [f for f in false_sites if f.bb in r]
-                ctx.check(not leak, 'K4', 'has_dubious_authority:%s=>true' % kind,
-                          'a positive %s test always classifies the authority as dubious' % kind,
-                          'after a positive %s test (%s at %s) the function can still return false (%s): the host form is '
-                          'only conditionally filtered' % (kind, c.callee, c.site.loc(), [f.loc() for f in leak]),
-                          loc=c.site.loc())
-            # B: return false dominated by the negative edge
-            for f in false_sites:
-                p = b.path_avoiding(f.bb, avoid_edges=neg)
-                ctx.check(p is None, 'K4', 'has_dubious_authority:false<=not-%s' % kind,
-                          '`return false` is reachable only after a negative %s test' % kind,
-                          '`return false` is reachable without a negative %s test' % kind, loc=f.loc(), path=fmt_path(b, p))
-            ctx.sample(dict(test=kind, call=c.callee, at=c.site.loc(), consts=const_args(b, c)))
+    POS = {'true', 'Ok', 'Some'}
+    kinds_seen = set()
+    n = 0
+    for p in enumerate_paths(b, ctx.facts):
+        if p.kind != 'return':
+            continue
+        n += 1
+        verdicts = {}
+        unknown = []
+        for v, labs in p.cond_map().items():
+            k = _test_kind(v)
+            if k is None:
+                if 'parse' in v and any('IpAddr' in t for c in b.calls('re:::parse$') for t in (c.term['fn'].get('targs') or [])):
+                    k = 'ip'
+                else:
+                    unknown.append(v)
+                    continue
+            neg = v.startswith('Not(')
+            labs = set(labs)
+            if v.startswith('cmp(') or v.startswith('Not(cmp('):
+                pos = labs == {'Equal'}
+                negl = bool(labs) and 'Equal' not in labs
+            else:
+                pos = bool(labs & POS) and not (labs - POS)
+                negl = bool(labs) and not (labs & POS)
+            if not (pos or negl):
+                continue
+            verdicts[k] = pos != neg
+            kinds_seen.add(k)
+        o = p.outcome or ''
+        ok_unknown = not unknown
+        ctx.check(ok_unknown, 'K4', 'has_dubious_authority:only-the-three-tests-decide', 'no other condition decides',
+                  'has_dubious_authority also branches on %s' % unknown)
+        if o == 'const(1)':
+            ctx.check(any(verdicts.values()), 'K4', 'has_dubious_authority:true<=some-test-positive', 'true only after a positive test',
+                      'has_dubious_authority returns true on a path without a positive test (%s)' % verdicts)
+        elif o == 'const(0)':
+            ctx.check(set(verdicts) == {'localhost', 'colon', 'ip'} and not any(verdicts.values()), 'K4', 'has_dubious_authority:false<=all-negative',
+                      '`false` only when the host is not localhost, has no colon and is not an IP address',
+                      'has_dubious_authority returns false although not all three tests were negative (%s): a host form is only '
+                      'conditionally filtered' % verdicts)
+        else:
+            # the last test returned as the result: `.. || c`
+            k = _test_kind(o)
+            kinds_seen.add(k) if k else None
+            rest = {'localhost', 'colon', 'ip'} - {k}
+            good = k is not None and not o.startswith('Not(') and set(verdicts) == rest and not any(verdicts.values())
+            ctx.check(good, 'K4', 'has_dubious_authority:result-expression', 'the result is the last test, the others were negative',
+                      'has_dubious_authority returns `%s` with the other tests at %s' % (o, verdicts))
+        for k, v in verdicts.items():
+            if v:
+                ctx.check(o == 'const(1)', 'K4', 'has_dubious_authority:%s=>true' % k,
+                          'a positive %s test always classifies the authority as dubious' % k,
+                          'after a positive %s test the function returns `%s`: the host form is only conditionally filtered' % (k, o))
+    ctx.floor('K4', 'paths of has_dubious_authority', n, 2)
+    for k in ('localhost', 'colon', 'ip'):
+        ctx.floor('K4', 'recognised %s test in has_dubious_authority' % k, 1 if k in kinds_seen else 0, 1)
+    ctx.sample(dict(tests=sorted(x for x in kinds_seen if x), paths=n))
     # canonical-operand rule for the localhost comparison
-    for sbb, edges, c in tests['localhost']:
+    nl = 0
+    for c in b.calls('re:.'):
+        ds = [arg_desc(c, i) for i in range(len(c.term['args']))]
+        if not any('localhost' in d for d in ds):
+            continue
+        nl += 1
         ci = 'eq_ignore_ascii_case' in c.callee
-        canon = any(('canonical_authority' in x.callee or 'to_ascii_lowercase' in x.callee or 'to_lowercase' in x.callee)
-                    for x in c.calls())
+        canon = any(x in d for d in ds for x in ('canonical_authority', 'to_ascii_lowercase', 'to_lowercase'))
         ctx.check(ci or canon, 'K4', 'has_dubious_authority:localhost-case-insensitive',
                   'the localhost comparison is case-insensitive (%s)' % c.callee,
                   'the authority is compared with "localhost" case-sensitively (%s on the raw authority): '
                   'rsync://LOCALHOST/... or https://LocalHost/... passes the filter and is fetched' % c.callee,
-                  loc=c.site.loc())
+                  loc=c.loc())
+    ctx.floor('K4', 'localhost comparison call', nl, 1)
     # the classified string is the URI's authority
     for imp in ['<rpki::uri::Https as utils::uri::UriExt>::get_authority', '<rpki::uri::Rsync as utils::uri::UriExt>::get_authority']:
         gb = ctx.body(imp)
